@@ -68,7 +68,7 @@ func checkpointScenario(c *sup.Ctx, r *rng.R, props []string) {
 		defer rosmar.VerifSetClock(nil)
 		c.Count("checkpoint_scenarios_with_frozen_clock", 1)
 	}
-	writers := 1 + r.Intn(4)
+	writers := 1 + r.Intn(6)
 	restarts := 3 + r.Intn(6)
 	res, msg, detail := conc.CheckpointRun(m, writers, 20+r.Intn(30), 4, restarts, r)
 	c.Count("checkpoint_scenarios", 1)
@@ -120,10 +120,10 @@ func init() {
 	})
 	sup.Register(&sup.Check{
 		Prop: "C15", Level: "exploration",
-		Rule: "1-4 writers (regular API) run while a feed with a checkpoint prefix in resume mode is started through alternating handles, allowed a PRNG-chosen number of callbacks (the callback parks on a channel so events stay queued), stopped by its terminator, its checkpoint document read, 3-8 times; then a Dump resume run catches up; oracle: the checkpoint's last_seq never exceeds the highest CAS the feed delivered so far, the final version (read-back CAS) of every key is in the union of the runs' deliveries, and the newest version delivered for a key describes its final state (deletion iff it has no body, the same body bytes); while the feed is stopped, keys of their own are re-created over tombstones that earlier runs already delivered and checkpointed (Add, AddRaw, WriteCas 0, Set, WriteResurrectionWithXattrs, Update) and never touched again, so only a resume can deliver their final version; schedule noise at the commit->post hook; also under the race detector; cell = (writers, restarts, stops while writers active, bucket type)",
+		Rule: "1-6 writers (regular API) run while a feed with a checkpoint prefix in resume mode is started through alternating handles, allowed a PRNG-chosen number of callbacks (the callback parks on a channel so events stay queued), stopped by its terminator, its checkpoint document read, 3-8 times; then a Dump resume run catches up; oracle: the checkpoint's last_seq never exceeds the highest CAS the feed delivered so far, the final version (read-back CAS) of every key is in the union of the runs' deliveries, and the newest version delivered for a key describes its final state (deletion iff it has no body, the same body bytes); while the feed is stopped, keys of their own are re-created over tombstones that earlier runs already delivered and checkpointed (Add, AddRaw, WriteCas 0, Set, WriteResurrectionWithXattrs, Update) and never touched again, so only a resume can deliver their final version; schedule noise at the commit->post hook; also under the race detector; cell = (writers, restarts, stops while writers active, bucket type)",
 		Assumptions: []string{"the checkpoint document itself is excluded from the must-deliver set (it is written by the feed)", "stops are sampled at PRNG-chosen callback counts, not at every queue position"},
 		Parts: []sup.Part{
-			mk("C15", "checkpoint-restarts", 600, 30000, false, checkpointScenario),
+			mk("C15", "checkpoint-restarts", 1500, 30000, false, checkpointScenario),
 			mk("C15", "checkpoint-restarts-race", 60, 2400, true, checkpointScenario),
 		},
 		RaceOwner: func(string) bool { return false },
